@@ -163,7 +163,7 @@ CLAIMS = {
    design="§5 C05"),
  'C10': dict(
    text="Lean theorems over all integers / all byte strings: bytesToInt (intToBytes n) = some n, decoding total exactly on non-empty strings, decoded range, "
-        "top bit of the encoding = sign, and minimality of the encoding (no shorter string decodes to n). The model is tied to int_to_bytes / bytes_to_int / "
+        "top bit of the encoding = sign, and minimality of the encoding (no shorter string decodes to n); the integer instructions executed symbolically on the VM model (addInts_exact, subInts_exact, multInts_exact, divInts_exact / divInts_zero, modInts_exact, less_exact, leq_exact): for operand items decoding to any integers the result item is the minimal encoding of the exact unbounded result (floor division / remainder as Python's // and %, fdiv_fmod), which decodes back to it - the only resource hypothesis is that the result fits stack_max_item_size. The model is tied to int_to_bytes / bytes_to_int / "
         "uint_to_bytes / bytes_to_bool / float codecs by differential runs (boundary bands, exhaustive small ranges, 2^k+d to 16384 bits, random to 8192 bits, "
         "all 1-2 byte strings, float32 patterns per exponent), and each case is also judged on the implementation alone by Python's signed big-int codec. "
         "Float32 arithmetic is executed, not proved (Lean Float is opaque to the kernel): the float clause is differential + bit-exact round-trip oracle only.",
